@@ -734,12 +734,14 @@ class Terms:
             if is_dict:
                 self._raise_dict(st, acc, pre_env, pre_dirty, env, dirty)
                 continue
-            if not ((isinstance(init, ast.List) and not init.elts) or (
+            # acc = 0 / 0.0; for ..: acc += E  ->  acc = sum([E for ..])  (sum starts from 0 and adds left to right, like the loop)
+            is_sum = isinstance(init, ast.Constant) and isinstance(init.value, (int, float)) and not isinstance(init.value, bool) and init.value == 0
+            if not is_sum and not ((isinstance(init, ast.List) and not init.elts) or (
                     isinstance(init, ast.Call) and isinstance(init.func, ast.Name) and init.func.id == "list" and not init.args and not init.keywords)):
                 continue
             tnames = {n.id for n in ast.walk(st.target) if isinstance(n, ast.Name)}
             self._skip = tnames | set(pre_env)
-            elt = self._builder_body(st.body, acc)
+            elt = self._builder_body(st.body, acc, mode="sum" if is_sum else "append")
             if elt is None:
                 continue
             conds, e, at = elt
@@ -753,6 +755,8 @@ class Terms:
             it = self.expand(st.iter, env=pre_env, dirty=pre_dirty)
             comp = ast.ListComp(elt=e2, generators=[ast.comprehension(target=copy.deepcopy(st.target), iter=it,
                                                                        ifs=ifs, is_async=0)])
+            if is_sum:
+                comp = ast.Call(func=ast.Name(id="sum", ctx=ast.Load()), args=[comp], keywords=[])
             ast.copy_location(comp, st)
             ast.fix_missing_locations(comp)
             if _size(comp) <= MAX_TERM:
@@ -832,8 +836,9 @@ class Terms:
             dirty.discard(acc)
             self.raised.setdefault(id(st), {})[acc] = comp
 
-    def _builder_body(self, body, acc, nested=False):
-        """([conditions], element expr, append stmt) if the body only computes temporaries and appends once"""
+    def _builder_body(self, body, acc, nested=False, mode="append"):
+        """([conditions], element expr, append stmt) if the body only computes temporaries and appends once
+        (mode "sum": adds once, `acc += E`)"""
         found = []
 
         def rec(stmts, conds):
@@ -848,6 +853,13 @@ class Terms:
                     if any(isinstance(n_, (ast.Break, ast.Continue, ast.Return)) for n_ in ast.walk(s)) and not isinstance(s, (ast.For, ast.While)):
                         return False
                     continue
+                if mode == "sum":
+                    if isinstance(s, ast.AugAssign) and isinstance(s.target, ast.Name) and s.target.id == acc and isinstance(s.op, ast.Add) \
+                            and not any(isinstance(n_, ast.Name) and n_.id == acc for n_ in ast.walk(s.value)):
+                        found.append((list(conds), s.value, s))
+                        continue
+                    if not isinstance(s, ast.If):
+                        return False
                 if isinstance(s, ast.Expr) and isinstance(s.value, ast.Call) and isinstance(s.value.func, ast.Attribute) \
                         and isinstance(s.value.func.value, ast.Name) and s.value.func.value.id == acc:
                     if s.value.func.attr == "append" and len(s.value.args) == 1:
@@ -862,8 +874,8 @@ class Terms:
                     continue
                 if isinstance(s, ast.If) and s.orelse and not conds:
                     # both branches append exactly once: the element is a conditional expression
-                    a = self._builder_body(s.body, acc, nested=True)
-                    b = self._builder_body(s.orelse, acc, nested=True)
+                    a = self._builder_body(s.body, acc, nested=True, mode=mode)
+                    b = self._builder_body(s.orelse, acc, nested=True, mode=mode)
                     if a is None or b is None or a[0] or b[0]:
                         return False
                     ea = self.expand(a[1], at=a[2], skip=self._skip)
@@ -880,8 +892,11 @@ class Terms:
             return None
         # acc must not be read elsewhere in the body
         cnt = sum(1 for s in body for n in ast.walk(s) if isinstance(n, ast.Name) and n.id == acc)
-        napp = sum(1 for s in body for n in ast.walk(s) if isinstance(n, ast.Attribute) and n.attr == "append"
-                   and isinstance(n.value, ast.Name) and n.value.id == acc)
+        if mode == "sum":
+            napp = sum(1 for s in body for n in ast.walk(s) if isinstance(n, ast.AugAssign) and isinstance(n.target, ast.Name) and n.target.id == acc)
+        else:
+            napp = sum(1 for s in body for n in ast.walk(s) if isinstance(n, ast.Attribute) and n.attr == "append"
+                       and isinstance(n.value, ast.Name) and n.value.id == acc)
         if cnt != napp or (napp != 1 and not isinstance(found[0][2], ast.If)):
             return None
         return found[0]
